@@ -34,7 +34,7 @@
 *)
 EXTENDS Integers, Sequences, FiniteSets, TLC, Json
 
-CONSTANTS Mode, MaxLen, Alphabet      \* Alphabet: "b5" | "b4" byte alphabets of mode "dec"
+CONSTANTS Mode, MaxLen, Alphabet      \* Alphabet: "b5" | "b4" | "b3" byte alphabets of mode "dec"
 
 VARIABLE w
 vars == <<w>>
@@ -139,6 +139,9 @@ Marshal(it) ==
                 [] it.k = "str" -> it.b
                 [] it.k = "raw" -> it.b
                 [] it.k = "tv"  -> EncInt(it.s) \o EncInt(it.u)
+                (* non-canonical: the declared length exceeds the integers inside (IntPayloadMayBeLonger) *)
+                [] it.k \in {"intpad", "i64pad"} -> EncInt(it.v) \o [i \in 1..it.pad |-> 255]
+                [] it.k = "tvpad" -> EncInt(it.s) \o EncInt(it.u) \o [i \in 1..it.pad |-> 255]
   IN EncTag(it.tag) \o EncInt(Nibs(Len(body))) \o body
 
 (* the expected result of the matching unmarshal call on a stream b starting with the item *)
@@ -148,12 +151,15 @@ Unmarshal(it, b) ==
     [] it.k = "str" -> UnStr(b, it.tag)
     [] it.k = "raw" -> UnRaw(b)
     [] it.k = "tv"  -> UnTv(b, it.tag)
+    [] it.k = "intpad" -> UnInt(b, it.tag, 8)
+    [] it.k = "i64pad" -> UnInt(b, it.tag, 16)
+    [] it.k = "tvpad"  -> UnTv(b, it.tag)
 Returned(it, r) ==        \* the call gave back exactly what was marshalled
   /\ r.ok
-  /\ CASE it.k \in {"int", "i64"} -> r.v = it.v
+  /\ CASE it.k \in {"int", "i64", "intpad", "i64pad"} -> r.v = it.v
        [] it.k = "str" -> r.v = it.b
        [] it.k = "raw" -> r.v = it.b /\ r.tag = it.tag /\ r.rc = Len(it.b)
-       [] it.k = "tv"  -> r.s = it.s /\ r.u = it.u
+       [] it.k \in {"tv", "tvpad"} -> r.s = it.s /\ r.u = it.u
 
 ItemTable ==
   << [k |-> "int", tag |-> <<1>>, v |-> <<>>],
@@ -171,7 +177,11 @@ ItemTable ==
      [k |-> "raw", tag |-> <<7>>, b |-> <<0, 255, 0>>],
      [k |-> "raw", tag |-> <<0, 0, 0, 1>>, b |-> Pay(17, FALSE)],
      [k |-> "tv", tag |-> <<8>>, s |-> <<>>, u |-> <<>>],
-     [k |-> "tv", tag |-> <<9>>, s |-> <<15, 15, 15, 15, 15, 15, 15, 7>>, u |-> <<15, 3, 2, 4, 15>>] >>    \* 0x7fffffff s 999999 us
+     [k |-> "tv", tag |-> <<9>>, s |-> <<15, 15, 15, 15, 15, 15, 15, 7>>, u |-> <<15, 3, 2, 4, 15>>],    \* 0x7fffffff s 999999 us
+     [k |-> "intpad", tag |-> <<10>>, v |-> <<>>, pad |-> 2],
+     [k |-> "intpad", tag |-> <<11>>, v |-> <<15, 15, 15>>, pad |-> 1],
+     [k |-> "i64pad", tag |-> <<12>>, v |-> <<1, 0, 0, 0, 0, 0, 0, 0, 8>>, pad |-> 3],
+     [k |-> "tvpad", tag |-> <<13>>, s |-> <<1>>, u |-> <<2>>, pad |-> 2] >>
 
 (* single items: every value x every tag, strings across the length-nibble boundaries *)
 OneTable ==
@@ -185,7 +195,9 @@ OneTable ==
  \cup {[k |-> "tv", tag |-> tg, s |-> s, u |-> u] : tg \in {<<>>, <<0, 1>>}, s \in {<<>>, <<1>>, ValOf(8, 15, 15)},
                                                      u \in {<<>>, <<15, 3, 2, 4, 15>>}}
 
-ByteAlpha == IF Alphabet = "b5" THEN <<0, 15, 127, 128, 255>> ELSE <<0, 15, 16, 128>>
+ByteAlpha == CASE Alphabet = "b5" -> <<0, 15, 127, 128, 255>>
+               [] Alphabet = "b4" -> <<0, 15, 16, 128>>
+               [] Alphabet = "b3" -> <<0, 1, 2>>         \* small lengths: items that really decode, also with slack
 
 -----------------------------------------------------------------------------
 (* state: "rt": word of ItemTable indices; "one": <<>> or <<item>>; "dec": word of bytes *)
